@@ -33,10 +33,10 @@ func (fc *FnCtx) callWith(instr ssa.Instruction, c *ssa.CallCommon, args []Val, 
 		key := "(" + typeName(c.Value.Type()) + ")." + c.Method.Name()
 		all := append([]Val{recv}, args...)
 		sig := c.Method.Type().(*types.Signature)
-		if con := fc.eng.cs.ByKey[key]; con != nil {
-			return fc.callByContract(instr, key, con, nil, sig, all, st, c.Value.Type())
-		}
-		if con := fc.eng.cs.ByKey[fc.eng.localKey(c.Method.Pkg(), key)]; con != nil {
+		if con, _ := fc.eng.ifaceContract(c.Value.Type(), c.Method); con != nil {
+			if con.Pure && len(con.Requires) == 0 && len(con.Ensures) == 0 {
+				return fc.ufApp(key, sig, fc.termArgs(all))
+			}
 			return fc.callByContract(instr, key, con, nil, sig, all, st, c.Value.Type())
 		}
 		fc.termArgs(all)
@@ -64,8 +64,7 @@ func (fc *FnCtx) callWith(instr ssa.Instruction, c *ssa.CallCommon, args []Val, 
 	sig := types.Unalias(c.Value.Type()).Underlying().(*types.Signature)
 	// func-typed contract (named func types only)
 	if n, ok := types.Unalias(c.Value.Type()).(*types.Named); ok {
-		key := "(" + typeName(n) + ")"
-		if con := fc.eng.cs.ByKey[key]; con != nil {
+		if con, key := fc.eng.ifaceContract(n, nil); con != nil {
 			all := append([]Val{v}, args...)
 			return fc.callByContract(instr, key, con, nil, sig, all, st, n)
 		}
@@ -244,12 +243,16 @@ func (fc *FnCtx) callByContract(instr ssa.Instruction, name string, con *Contrac
 		}
 	} else if fn != nil {
 		fc.havocEffects(st, fc.eng.effects(fn), name)
+	} else if con.Pure {
+		// opaque interface method / func value: no effects (T5)
 	} else {
 		fc.havocAll(st)
 	}
 	var res Val
 	if con.Pure && fn != nil {
 		res = fc.eng.pureApp(fc, fn, targs, pre)
+	} else if con.Pure && fn == nil {
+		res = fc.ufApp(name, sig, targs)
 	} else {
 		res = fc.freshResults(sig.Results(), st, mangle(name))
 	}
